@@ -168,6 +168,24 @@ example :
     (run true s [.writeEnq, .wClose, .wStep, .wStep, .writeEnq]).out = [.wFail] := by
   decide
 
+/-- **after_close, Close during the retry wait**: the server answered non-200 and the worker
+    waits `retryDelay`; once `Close` has taken effect the worker can leave that wait at once
+    (`wClose` is enabled there), and after it has, NO further request is ever issued, whatever
+    the other actors do — zero requests after a Close observed in the retry wait. -/
+theorem no_request_after_close_in_retry_wait (s : State) (snd : Bytes) (wrSz k : Nat)
+    (hcl : s.closed = true) (hs : s.wpc = .retry snd wrSz k) (cs : List Choice) :
+    (run codeFixed (step codeFixed s .wClose) cs).reqs = s.reqs := by
+  have h1 : (step true s .wClose).wpc = .x1 := retry_close_fixed s snd wrSz k hcl hs
+  have h2 : (step true s .wClose).reqs = s.reqs := by simp [step, hs, hcl]
+  have hex : exited (step true s .wClose) = true := by simp [exited, h1]
+  exact ((exited_run true _ cs hex).2).trans h2
+
+/-- non-200, Close, the worker leaves the retry wait; the timer step afterwards changes nothing -/
+example :
+    let s := run codeFixed (init 1) [.wTimer, .wStep, .sNon200, .close, .wClose]
+    s.reqs.length = 1 ∧ (run codeFixed s [.wStep, .wStep, .wStep, .wTimer, .wStep]).reqs.length = 1 := by
+  decide
+
 /-- **F7, the defect of the released `Read`** (`fixed = false`): a response arrives, the
     application closes the connection, `Close` returns — and the next `Read` still returns the
     leftover response data with a nil error. -/
